@@ -46,7 +46,11 @@ def count_on_paths(ctx, func, pred):
 
 def _record(test_id, status, tags, first, last, files=()):
     """What on_test must receive for one test: the described _TestRecord."""
-    details = ("kwdict", tuple((name, ("content", ("new", "_make_content_type", (mime,), ()), tuple(chunks))) for name, mime, chunks in files))
+    def ctype(mime):
+        # the content type a "<type>/<subtype>" MIME string stands for
+        primary, _, sub = mime[1].partition("/")
+        return ("object", "ContentType", (("parameters", ("kwdict", ())), ("subtype", ("const", sub)), ("type", ("const", primary))))
+    details = ("kwdict", tuple((name, ("content", ctype(mime), tuple(chunks))) for name, mime, chunks in files))
     fields = {"id": test_id, "status": ("const", status), "tags": tags, "timestamps": ("tuple", first, last), "details": details}
     return ("object", "_TestRecord", tuple(sorted(fields.items())))
 
